@@ -22,7 +22,7 @@ def handle (line : String) : String :=
   match toks with
   | [] => "bad-case"
   | op :: _ =>
-    if op == "tpkt_read" || op == "x224_read" then c13 toks
+    if op == "tpkt_read" || op == "x224_read" || op == "tpkt_tls" then c13 toks
     else if op == "tpkt_write" || op == "x224_write" then c14 toks
     else if op == "blit" || op == "blitz" then c19 toks
     else if op.startsWith "per_" then per toks
